@@ -6,7 +6,7 @@ import ast, itertools
 from .core import ( rule, Result, AnalysisError, dotted, call_name, is_call_to, names_in, attrs_in, walk_no_nested,
                     norm_text, dotted_in, stmt_of, pmatch, pfind, txt )
 from .core import Matcher
-from .fold import fold, try_fold, NoFold
+from .fold import fold, try_fold, NoFold, run_block
 from .cfg import CFG, INF
 from . import spec
 
@@ -1667,15 +1667,50 @@ def d_echo( ctx ):
     res = Result( 'D-ECHO' )
     src = ctx.src( LOGIX )
     fn = src.get( 'process' )
-    if pfind( fn, 'data.response = dotdict( data.request )' ):
-        res.ok( src, fn, 'data.response = dotdict( data.request )' )
-    else:
+    # decided by value: the statements from the first store of <data>.response on, as far as they are a decision fragment, on a marked
+    # request; `dotdict( x )` stands for "a new mapping with x's entries".  Afterwards the response and its encapsulation are new mappings
+    # ( not the request's own ) holding the request's sender_context / session_handle / command
+    dname = fn.args.args[1].arg
+    def stores_response( st ):
+        return isinstance( st, ast.Assign ) and any(( isinstance( t, ast.Attribute ) and t.attr == 'response' and dotted( t.value ) == dname )
+                                                     or ( isinstance( t, ast.Subscript ) and dotted( t.value ) == dname and try_fold( t.slice ) == 'response' )
+                                                     for t in st.targets )
+    first = None
+    for blk in ast.walk( fn ):
+        for fld in ( 'body', 'orelse', 'finalbody' ):
+            lst = getattr( blk, fld, None )
+            if isinstance( lst, list ):
+                for k, st in enumerate( lst ):
+                    if stores_response( st ) and first is None:
+                        first = ( lst, k )
+    if first is None:
         res.bad( src, fn, 'process', 'the response must start as a structural copy of the request' )
-    copy = pfind( fn, 'data.response.enip = dotdict( data.request.enip )' )
-    if copy:
-        res.ok( src, copy[0][0], 'data.response.enip = dotdict( data.request.enip )' )
     else:
-        res.bad( src, fn, 'process', 'the response encapsulation must be a copy of the request\'s (sender_context, session_handle, command echoed)' )
+        lst, k = first
+        envelope = { 'sender_context': 'SC', 'session_handle': 'SH', 'command': 'CMD', 'input': 'IN' }
+        request = { 'enip': envelope, 'addr': 'ADDR' }
+        env = { dname: { 'request': request }, 'dotdict': lambda *a: dict( *a ), 'cpppo.dotdict': lambda *a: dict( *a ) }
+        for n_, st in enumerate( lst ):
+            if n_ < k and not ( isinstance( st, ast.Assign ) and all( isinstance( t, ast.Name ) for t in st.targets )):
+                continue						# before the first store: only the locals it may be made of
+            try:
+                if run_block( [ st ], env, ignore_calls=( 'log', 'detail', 'info', 'debug' )).kind != 'fall' and n_ >= k:
+                    break
+            except NoFold:
+                if n_ >= k:
+                    break
+        rsp = env[dname].get( 'response' )
+        if isinstance( rsp, dict ) and rsp is not request and request == { 'enip': envelope, 'addr': 'ADDR' }:
+            res.ok( src, lst[k], 'the response starts as a new mapping made of the request\'s entries' )
+        else:
+            res.bad( src, lst[k], 'process', 'the response must start as a structural copy of the request' )
+        renip = rsp.get( 'enip' ) if isinstance( rsp, dict ) else None
+        echoed = ( 'sender_context', 'session_handle', 'command' )
+        if isinstance( renip, dict ) and renip is not envelope and all( renip.get( f ) == envelope[f] for f in echoed ) \
+           and envelope == { 'sender_context': 'SC', 'session_handle': 'SH', 'command': 'CMD', 'input': 'IN' }:
+            res.ok( src, lst[k], 'the response encapsulation is a new mapping holding the request\'s sender_context, session_handle, command' )
+        else:
+            res.bad( src, lst[k], 'process', 'the response encapsulation must be a copy of the request\'s (sender_context, session_handle, command echoed)' )
     call = pfind( fn, '_p = _u.request( data.response, addr=addr )' )
     call = [ ( n_, m_ ) for n_, m_ in call if isinstance( m_['_u'], ast.Name ) and pfind( fn, '%s = setup( **kwds )' % m_['_u'].id ) ]
     rets = [ s for s in ast.walk( fn ) if isinstance( s, ast.Return ) and s.value is not None ]
@@ -2717,7 +2752,18 @@ def c_main( ctx ):
         res.bad( usrc, dflt, dflt, 'without configuration every route path must be accepted (route_path = None)' )
     ini = usrc.get( 'UCMM.__init__' )
     cfgif = [ i for i in ast.walk( ini ) if isinstance( i, ast.If ) and pmatch( i.test, 'self.route_path is None' ) ]
-    if cfgif and pfind( cfgif[0], 'self.route_path = device.parse_route_path( self.config_str( "Route Path", None ))' ):
+    def from_config( i ):
+        # a store to self.route_path inside the guard whose value parses what the "Route Path" option of the configuration holds
+        for st in ast.walk( i ):
+            if isinstance( st, ast.Assign ) and any( dotted( t ) == 'self.route_path' for t in st.targets ):
+                for c in ast.walk( st.value ):
+                    if isinstance( c, ast.Call ) and ( call_name( c ) or '' ).split( '.' )[-1] == 'parse_route_path':
+                        if any( isinstance( c2, ast.Call ) and ( call_name( c2 ) or '' ).split( '.' )[-1].startswith( 'config' ) and c2.args
+                                and try_fold( c2.args[0] ) == 'Route Path' for a in c.args for c2 in ast.walk( a )):
+                            return True
+        return False
+    cfgif = [ i for i in cfgif if from_config( i ) ]
+    if cfgif:
         res.ok( usrc, cfgif[0], 'a configured [UCMM] Route Path only applies when none was given at run time' )
     else:
         res.bad( usrc, ini, 'UCMM.__init__', 'the config-file route path must only fill in a missing run-time route path' )
